@@ -12,11 +12,11 @@ import (
 
 func main() {
 	r := vlib.Start("C07", "exploration")
-	solExpr, err := csrc.SolReturnExpr("/repo/ethereum/contracts/Messages.sol", "quorum")
+	solExpr, err := csrc.SolReturnExpr(vlib.Repo()+"/ethereum/contracts/Messages.sol", "quorum")
 	if err != nil {
 		r.Inconclusive("Messages.sol quorum(): " + err.Error())
 	}
-	ral, err := csrc.LoadRalph("/repo/alephium/contracts/governance.ral")
+	ral, err := csrc.LoadRalph(vlib.Repo() + "/alephium/contracts/governance.ral")
 	var ralExpr string
 	if err != nil {
 		r.Inconclusive("governance.ral: " + err.Error())
